@@ -45,7 +45,10 @@ fn real_main() -> i32 {
             capture::start();
             start_watchdog(120);
             let mut rep = Report::new();
-            let r = replay_choices(prop.as_ref(), &fam, &choices, &mut rep);
+            let r = if fam == "bytes" || fam == "text" {
+                let bytes: Vec<u8> = v["bytes"].as_array().map(|a| a.iter().map(|x| x.as_u64().unwrap_or(0) as u8).collect()).unwrap_or_default();
+                sverif::fuzzrt::replay_bytes(prop.as_ref(), &fam, &bytes, &mut rep)
+            } else { replay_choices(prop.as_ref(), &fam, &choices, &mut rep) };
             match r {
                 CaseResult::Pass => { capture::real_stdout(&format!("{}\n", json!({"replay": "pass", "property": id}))); 0 }
                 CaseResult::Discard(w) => { capture::real_stdout(&format!("{}\n", json!({"replay": "discard", "why": w, "property": id}))); 0 }
@@ -79,6 +82,8 @@ fn real_main() -> i32 {
             let mut lines = vec![];
             for e in sverif::ub::make_corpus(seed, n0, false) { lines.push(e.to_string()); }
             for e in sverif::ub::make_corpus(seed.wrapping_add(1), n1, true) { lines.push(e.to_string()); }
+            let n2: usize = args.get(6).and_then(|s| s.parse().ok()).unwrap_or(0);
+            for e in sverif::ub::make_cut_under_corpus(seed.wrapping_add(2), n2) { lines.push(e.to_string()); }
             if std::fs::write(&args[2], lines.join("\n") + "\n").is_err() { eprintln!("cannot write {}", args[2]); return 3; }
             println!("{}", lines.len());
             0
